@@ -214,6 +214,14 @@ func (c *Ctx) lk1PhaseOrder() []Obligation {
 		Detail: "no loop over old.typeDefs that stores new.typeDefs[key] on every non-error path was found: the unchecked lookup in the translate phase can miss"}
 	c.eachFunc(pkgASM, func(p *packages.Package, fd *ast.FuncDecl, fn *types.Func) {
 		info := p.TypesInfo
+		// loops of this function that store new.typeDefs[key] as their last statement, with the
+		// condition under which an entry is skipped ("" = none)
+		type loop struct {
+			rs     *ast.RangeStmt
+			filter string
+			neg    bool
+		}
+		var loops []loop
 		ast.Inspect(fd.Body, func(n ast.Node) bool {
 			rs, ok := n.(*ast.RangeStmt)
 			if !ok || mapFieldName(info, rs.X) != "oldIndex.typeDefs" || rs.Key == nil {
@@ -233,8 +241,29 @@ func (c *Ctx) lk1PhaseOrder() []Obligation {
 			if !ok || mapFieldName(info, ix.X) != "newIndex.typeDefs" || exprString(ix.Index) != k {
 				return true
 			}
+			l := loop{rs: rs}
+			rest := body[:len(body)-1]
+			// one leading filter `if [init;] COND { continue }`
+			if len(rest) > 0 {
+				if is, ok := rest[0].(*ast.IfStmt); ok && is.Else == nil && len(is.Body.List) == 1 {
+					if br, ok := is.Body.List[0].(*ast.BranchStmt); ok && br.Tok == token.CONTINUE {
+						init := ""
+						if is.Init != nil {
+							if ia, ok := is.Init.(*ast.AssignStmt); ok && len(ia.Rhs) == 1 {
+								init = exprString(ia.Rhs[0])
+							}
+						}
+						cond := strings.ReplaceAll(exprString(is.Cond), " ", "")
+						if strings.HasPrefix(cond, "!") {
+							l.neg, cond = true, cond[1:]
+						}
+						l.filter = init + ";" + cond
+						rest = rest[1:]
+					}
+				}
+			}
 			okExits := true
-			for _, st := range body[:len(body)-1] {
+			for _, st := range rest {
 				ast.Inspect(st, func(m ast.Node) bool {
 					switch m := m.(type) {
 					case *ast.BranchStmt:
@@ -248,12 +277,25 @@ func (c *Ctx) lk1PhaseOrder() []Obligation {
 				})
 			}
 			if okExits {
-				o.Verdict = OK
-				o.Pos = c.pos(rs.Pos())
-				o.Detail = fmt.Sprintf("%s stores new.typeDefs[%s] for every key of old.typeDefs unless it returns an error", funcKey(fn), k)
+				loops = append(loops, l)
 			}
 			return true
 		})
+		for i, l := range loops {
+			covered := l.filter == ""
+			how := "for every key of old.typeDefs"
+			for j, m := range loops {
+				if i != j && l.filter != "" && l.filter == m.filter && l.neg != m.neg {
+					covered = true
+					how = fmt.Sprintf("for every key of old.typeDefs: two loops skip complementary halves (%s / its negation)", l.filter)
+				}
+			}
+			if covered {
+				o.Verdict = OK
+				o.Pos = c.pos(l.rs.Pos())
+				o.Detail = fmt.Sprintf("%s stores new.typeDefs[key] %s unless it returns an error", funcKey(fn), how)
+			}
+		}
 	})
 	return []Obligation{o}
 }
